@@ -1,0 +1,136 @@
+//go:build verif
+
+package option
+
+// Contracts for the deductive verifier in /verif (govc).  This file contains comments only;
+// it is compiled only with -tags verif and declares nothing.
+
+// ---- :skip patterns (C19, C06) ---------------------------------------------------------------------
+
+//@ spec isRegexpPat(p string) bool = len(p) >= 2 && hasPrefix(p, "/") && hasSuffix(p, "/")
+//@ spec patBody(p string) string = cond(isRegexpPat(p), p[1:len(p)-1], "^" + quoteMeta(p) + "$")
+//@ spec exprOf(p string, exact bool) string = cond(exact, "", "(?i)") + patBody(p)
+//@ spec refMatch(p string, s string, exact bool) bool =
+//@     cond(isRegexpPat(p), cond(exact, re2Search(patBody(p), s), re2SearchFold(patBody(p), s)),
+//@                          cond(exact, p == s, equalFold(p, s)))
+//@ spec pmInv(m *PatternMatcher) bool =
+//@     m != nil && m.re != nil && reSrc(m.re) == exprOf(m.pattern, m.exactCase) && re2Valid(patBody(m.pattern))
+//@
+//@ func compileRegexp(pattern, exactCase) (re, err)
+//@   use R3valid(patBody(pattern)), R4valid(pattern)
+//@   ensures {C19,C06,C14} (err == nil) == re2Valid(patBody(pattern))
+//@   ensures {C19,C06,C14} err == nil ==> re != nil && reSrc(re) == exprOf(pattern, exactCase)
+//@   ensures {C19,C14} err != nil ==> re == nil
+//@
+//@ func NewPatternMatcher(pattern, exactCase) (m, err)
+//@   use R4valid(pattern)
+//@   ensures {C19,C06,C14,C03} (err != nil) == (isRegexpPat(pattern) && !re2Valid(patBody(pattern)))
+//@   ensures {C19,C06,C09} err == nil ==> fresh(m) && m.pattern == pattern && m.exactCase == exactCase && pmInv(m)
+//@   ensures err != nil ==> m == nil
+//@
+//@ func (*PatternMatcher).Match(m, ident, exactCase) (r)
+//@   requires pmInv(m)
+//@   use R3search(patBody(m.pattern), ident), R4search(m.pattern, ident), R4fold(m.pattern, ident)
+//@   assigns m.re, m.exactCase
+//@   ensures {C19,C06,C09} pmInv(m) && m.exactCase == exactCase
+//@   ensures {C19,C06,C09} r == refMatch(m.pattern, ident, exactCase)
+//@
+//@ spec shouldSkip(o Options, name string) bool =
+//@     exists(i, 0, len(o.SkipFields), refMatch(o.SkipFields[i].pattern, name, o.ExactCase))
+//@ spec skipInv(o Options) bool = forall(i, 0, len(o.SkipFields), pmInv(o.SkipFields[i]))
+//@
+//@ func (Options).ShouldSkip(o, fieldName) (r)
+//@   requires skipInv(o)
+//@   assigns all(PatternMatcher.re), all(PatternMatcher.exactCase)
+//@   ensures {C19,C06} skipInv(o)
+//@   ensures {C19,C06} r == shouldSkip(o, fieldName)
+//@   loop 1 invariant $k <= len(o.SkipFields) && skipInv(o)
+//@   loop 1 invariant forall(i, 0, $k, !refMatch(o.SkipFields[i].pattern, fieldName, o.ExactCase))
+//@
+//@ func (Options).CompareFieldName(o, a, b) (r)
+//@   ensures {C19,C04} r == cond(o.ExactCase, a == b, equalFold(a, b))
+
+//@ global reFromParen: reFromParen != nil && reSrc(reFromParen) == "\\(.*"
+
+// ---- identifier paths (C19, C06) -----------------------------------------------------------------------
+
+//@ func NewIdentMatcher(pattern) (m)
+//@   ensures {C19,C06} fresh(m) && m.pattern == pattern
+//@   ensures {C06,C14} len(m.paths) == nsplit(pattern, ".") && len(m.paths) >= 1
+//@   ensures {C06} forall(i, 0, len(m.paths), m.paths[i] == splitAt(pattern, ".", i))
+//@ func (*IdentMatcher).Match(m, ident, exactCase) (r)
+//@   ensures {C19,C06} r == cond(exactCase, m.pattern == ident, equalFold(m.pattern, ident))
+//@ func (*IdentMatcher).PathLen(m) (r)
+//@   ensures {C06} r == len(m.paths)
+//@ func (*IdentMatcher).ExprAt(m, at) (r)
+//@   requires 0 <= at && at < len(m.paths)
+//@   ensures {C06} r == m.paths[at]
+//@ func (*IdentMatcher).ForGetter(m, at) (r)
+//@   requires 0 <= at && at < len(m.paths)
+//@   ensures {C06} r == hasSuffix(m.paths[at], "()")
+//@ func (*IdentMatcher).NameAt(m, at) (r)
+//@   requires 0 <= at && at < len(m.paths)
+//@   ensures {C06} r == reReplaceAll(reFromParen, m.paths[at], "")
+//@
+//@ func NewNameMatcher(src, dst, pos) (m)
+//@   ensures {C06,C09} fresh(m) && m.pos == pos && m.src != nil && m.dst != nil
+//@   ensures {C06,C09} m.src.pattern == src && m.dst.pattern == cond(dst == "", src, dst)
+//@   ensures {C06,C14} len(m.src.paths) >= 1 && len(m.dst.paths) >= 1 && len(m.src.paths) == nsplit(src, ".")
+//@ func (*NameMatcher).Match(m, src, dst, exactCase) (r)
+//@   requires m.src != nil && m.dst != nil
+//@   ensures {C19} r == (cond(exactCase, m.src.pattern == src, equalFold(m.src.pattern, src)) &&
+//@                       cond(exactCase, m.dst.pattern == dst, equalFold(m.dst.pattern, dst)))
+//@ func (*NameMatcher).Src(m) (r)
+//@   ensures r == m.src
+//@ func (*NameMatcher).Dst(m) (r)
+//@   ensures r == m.dst
+//@ func (*NameMatcher).Pos(m) (r)
+//@   ensures r == m.pos
+//@
+//@ func NewFieldConverter(converter, src, dst, pos) (c)
+//@   ensures {C06,C09} fresh(c) && c.converter == converter && c.m != nil && c.m.src != nil && c.m.dst != nil && c.m.pos == pos
+//@   ensures {C06,C09} c.m.src.pattern == src && c.m.dst.pattern == cond(dst == "", src, dst)
+//@   ensures {C06,C14} len(c.m.src.paths) >= 1 && len(c.m.dst.paths) >= 1
+//@   ensures c.argType == nil && c.retType == nil && !c.retError
+//@ func (*FieldConverter).Match(c, src, dst) (r)
+//@   requires c.m != nil && c.m.src != nil && c.m.dst != nil
+//@   ensures {C19} r == (c.m.src.pattern == src && c.m.dst.pattern == dst)
+//@ func (*FieldConverter).Set(c, argType, retType, returnError)
+//@   assigns c.argType, c.retType, c.retError
+//@   ensures {C06,C07} c.argType == argType && c.retType == retType && c.retError == returnError
+//@ func (*FieldConverter).Converter(c) (r)
+//@   ensures r == c.converter
+//@ func (*FieldConverter).Src(c) (r)
+//@   requires c.m != nil
+//@   ensures r == c.m.src
+//@ func (*FieldConverter).Dst(c) (r)
+//@   requires c.m != nil
+//@   ensures r == c.m.dst
+//@ func (*FieldConverter).Pos(c) (r)
+//@   requires c.m != nil
+//@   ensures r == c.m.pos
+//@ func (*FieldConverter).ArgType(c) (r)
+//@   ensures r == c.argType
+//@ func (*FieldConverter).RetType(c) (r)
+//@   ensures r == c.retType
+//@ func (*FieldConverter).RetError(c) (r)
+//@   ensures {C07} r == c.retError
+//@ func (*FieldConverter).RHSExpr(c, arg) (r)
+//@   ensures r == c.converter + "(" + arg + ")"
+//@
+//@ func NewLiteralSetter(dst, literal, pos) (m)
+//@   ensures {C06,C09} fresh(m) && m.literal == literal && m.pos == pos && m.dst != nil && m.dst.pattern == dst && len(m.dst.paths) >= 1
+//@ func (*LiteralSetter).Match(m, dst, exactCase) (r)
+//@   requires m.dst != nil
+//@   ensures {C19} r == cond(exactCase, m.dst.pattern == dst, equalFold(m.dst.pattern, dst))
+//@ func (*LiteralSetter).Dst(m) (r)
+//@   ensures r == m.dst
+//@ func (*LiteralSetter).Literal(m) (r)
+//@   ensures {C06} r == m.literal
+//@ func (*LiteralSetter).Pos(m) (r)
+//@   ensures r == m.pos
+//@
+//@ func NewOptions() (o)
+//@   ensures {C09} o.Style == model.DstVarReturn && o.Rule == model.MatchRuleName && o.ExactCase && !o.Getter && !o.Stringer && !o.Typecast
+//@   ensures {C09} o.Receiver == "" && !o.Reverse && o.SkipFields == nil && o.NameMapper == nil && o.TemplatedNameMapper == nil
+//@   ensures {C09} o.Converters == nil && o.Literals == nil && o.PreProcess == nil && o.PostProcess == nil
